@@ -514,13 +514,17 @@ func (c *Ctx) Finish() {
 	if len(c.harnessErr) > 0 {
 		ev["harness_errors"] = c.harnessErr
 	}
-	_ = os.MkdirAll(filepath.Join(Root, "evidence"), 0o755)
+	evdir := filepath.Join(Root, "evidence")
+	if d := os.Getenv("VERIF_EVIDENCE_DIR"); d != "" { // side runs (coverage measurement) must not overwrite the registered evidence
+		evdir = d
+	}
+	_ = os.MkdirAll(evdir, 0o755)
 	name := c.ID + ".json"
 	if c.Part != "" {
 		name = c.ID + ".part-" + c.Part + ".json"
 	}
 	b, _ := json.MarshalIndent(ev, "", " ")
-	if err := os.WriteFile(filepath.Join(Root, "evidence", name), b, 0o644); err != nil {
+	if err := os.WriteFile(filepath.Join(evdir, name), b, 0o644); err != nil {
 		fmt.Fprintln(os.Stderr, err)
 		os.Exit(2)
 	}
